@@ -88,6 +88,45 @@ def gen_history(rng):
     return ev
 
 
+def gen_bulk_history(rng):
+    """many requests outstanding at once: error_all_requests hands the handlers to a helper thread once
+    CALLBACK_ERR_THREAD_THRESHOLD (100) of them remain after the first"""
+    n = rng.choice([99, 100, 101, 102, 103, 128, 150, 300])
+    ncp = rng.choice([0, 0, 1, 2])
+    ev = [('send', t, t < ncp) for t in range(n)]
+    for t in range(ncp):
+        ev.append(('resp', t))
+    answered = rng.sample(range(ncp, n), rng.choice([0, 0, 1, 3]))
+    for t in answered:
+        ev.append(('resp', t))
+    return ev
+
+
+_HELPER_THREADS = []
+
+
+def _recording_thread_class():
+    import threading
+
+    class RecordingThread(threading.Thread):
+        def start(self):
+            _HELPER_THREADS.append(self)
+            threading.Thread.start(self)
+    return RecordingThread
+
+
+def _join_helper_threads(ctx):
+    """error_all_requests may finish on a daemon helper thread: the oracle looks only after that thread ended"""
+    while _HELPER_THREADS:
+        t = _HELPER_THREADS.pop()
+        t.join(120)
+        ctx.count("direct_helper_threads_joined")
+        if t.is_alive():
+            ctx.note("a helper thread of error_all_requests did not end within 120 s (inconclusive for that case)")
+            return False
+    return True
+
+
 class DirectRun(object):
     def __init__(self, mods, v):
         self.P, self.C, self.F, Bare = mods
@@ -226,8 +265,12 @@ def run_direct_case(ctx, mods, v, hist, kind, pos, same_read, second, rng_pick):
         if not (conn.is_defunct or conn.is_closed):
             ctx.count("direct_failing_frame_not_rejected")
             return None
+    if not _join_helper_threads(ctx):
+        return None
     ctx.count("direct_failures_injected")
     ctx.count("direct_outstanding_handlers_at_failure", len(outstanding))
+    if len(outstanding) > C.Connection.CALLBACK_ERR_THREAD_THRESHOLD:
+        ctx.count("direct_failures_with_more_than_threshold_outstanding")
     ctx.count("direct_live_paging_sessions_at_failure", len(cp_live))
     # ---- the rest of the history after the failure: sends must be refused; nothing else can arrive on a dead socket
     post_sends = 0
@@ -249,6 +292,8 @@ def run_direct_case(ctx, mods, v, hist, kind, pos, same_read, second, rng_pick):
             conn.feed(F.frame(v, 0, -1, F.OPNUM['EVENT'], b'\x00\x05BOGUS'))
         except Exception as e:      # noqa
             return [('process-io-buffer-raises', 'feeding bytes after the failure raised %s: %s' % (type(e).__name__, e))]
+    if not _join_helper_threads(ctx):
+        return None
     # ---- oracle
     viol = []
     if not conn.is_closed:
@@ -320,15 +365,30 @@ def run_direct(ctx, budget_s):
     rng = ctx.rng
     nh = 0
     import time as _t
+    saved_thread = C.Thread
+    C.Thread = _recording_thread_class()
+    try:
+        _run_direct_loop(ctx, mods, rng, budget_s)
+    finally:
+        C.Thread = saved_thread
+
+
+def _run_direct_loop(ctx, mods, rng, budget_s):
+    import time as _t
+    nh = 0
     end = _t.time() + budget_s          # wall-clock only bounds the amount of work, never a verdict
     while (_t.time() < end or nh < (15 if ctx.quick else 40)) and nh < ctx.scale(400, 40000):
         nh += 1
-        hist = gen_history(rng)
+        bulk = nh % 8 == 1
+        hist = gen_bulk_history(rng) if bulk else gen_history(rng)
         v = rng.choice([3, 4, 4])
         pick = rng.randrange(1000)
         sig = tuple((e[0], e[1]) + ((e[2],) if e[0] == 'send' else ()) for e in hist)
+        if bulk:
+            sig = ('bulk', sum(1 for e in hist if e[0] == 'send'), tuple(e for e in hist if e[0] != 'send'))
+            ctx.count("direct_bulk_histories")
         for kind in CALL_KINDS + FRAME_KINDS:
-            for pos in range(len(hist) + 1):
+            for pos in (range(len(hist) + 1) if not bulk else (len(hist), len(hist) - rng.randrange(1, 4))):
                 variants = [(False, None)]
                 if kind in FRAME_KINDS:
                     variants.append((True, None))
@@ -586,12 +646,9 @@ def run_session(ctx, budget_s):
     rng = ctx.rng
     base = ctx.seed * 1000003 + (ctx.worker or 0) * 100003
     nh = 0
-    import time as _t
-    # wall-clock only bounds the amount of work (never a verdict); keep a minimum of work when start-up on a busy box ate the budget
-    t_end = _t.time() + max(15 if ctx.quick else 120, ctx.time_left(budget_s))
     n_min = 40 if ctx.quick else 100          # cases per worker, whatever the box is doing: the floors must never depend on the load
     done = [0]
-    while (_t.time() < t_end or done[0] < n_min) and nh < ctx.scale(60, 6000):
+    while (ctx.time_left(budget_s) > 0 or done[0] < n_min) and nh < ctx.scale(60, 6000):
         nh += 1
         acts = gen_session_history(rng)
         nodes = rng.choice([1, 2, 2])
@@ -600,7 +657,7 @@ def run_session(ctx, budget_s):
         hseed = base + nh * 101
         for kind in SESSION_KINDS:
             for pos in range(len(acts) + 1):
-                if _t.time() > t_end and done[0] >= n_min:
+                if ctx.time_left(budget_s) < 0 and done[0] >= n_min:
                     break
                 seed = hseed + pos
                 gc.collect()            # garbage of earlier worlds must not be finalised inside this one (reproducibility from the seed)
@@ -764,6 +821,6 @@ def run(ctx):
     run_session(ctx, 38 if ctx.quick else 400)
     # floors are far below what an idle machine reaches (the box is shared): they only guarantee that every monitor was reached
     ctx.floor_distinct = 1000 if ctx.quick else 20000
-    ctx.floor_counters = {"direct_cases": 1000, "direct_outstanding_handlers_at_failure": 1500, "direct_live_paging_sessions_at_failure": 150,
+    ctx.floor_counters = {"direct_cases": 1000, "direct_failures_with_more_than_threshold_outstanding": 10, "direct_outstanding_handlers_at_failure": 1500, "direct_live_paging_sessions_at_failure": 150,
                           "direct_sends_after_failure": 1500, "session_cases": 100, "session_handlers_errored_by_failure": 80,
                           "session_sends_after_failure_refused": 80, "preemption_cases": 20}
